@@ -30,7 +30,6 @@ Thorough tier only: "write failure is fatal" (harness/cmd/c08fatal): a child pro
 """
 import json
 import os
-import re
 
 from props import engine_common as ec
 from vf import framework as fw
@@ -73,57 +72,16 @@ MONS = ["mon_persist_diag", "mon_reads_diag", "mon_explained_diag"]
 INDEPENDENT = {9, 10, 11, 12, 13, 15}
 
 
-# ---- load disturbance not (yet) flagged by the shared harness: an attempt the engine timed out BEFORE the worker pool had
-# entered the plugin (no Start at all for that attempt).  Seen once, on a machine thrashing in swap.  Signature: the
-# engine's record (Running, n, lastok=false) of a short-timeout action (15-25 ms) with no Start of that action since its
-# previous write, at least one timeout after that previous write.  Such a run is excluded like a late start (the
-# harness does the same for late starts / late ends); the same signature with LESS than one timeout elapsed is not excused.
-_GRP = ["bypass", "pre", "cont", "post", "deferred"]
-_EV = re.compile(r"^#\d+ \+(\d+)us (Start|End|Write) (\S+)(?: (\S+))?(?: n=(\d+) lastok=(true|false))?")
+# ---- memory: a C08 trace carries ~15 full snapshots, a 512-trace Coq shard needs 2.3 GB (measured); 16 of them at once
+# do not fit next to the other checks.  Same evaluation, smaller shards (<= 120 traces, still 16 at a time).
+def _evaluate(ctx, tag, cases, header, ok_fn="eng_ok"):
+    work = os.path.join(ctx.work, "coq_" + tag)
+    n = len(cases)
+    return fw.eval_cases(work, getattr(ctx, "engine_proj", "engine"), header, "case", "eng_check", ok_fn,
+                         [c["coq"] for c in cases], shards=max(fw.NCPU, (n + 119) // 120))
 
 
-def _human(key):
-    t = key.split("/")
-    if t[0] == "s":
-        return "block%s.seq%s[%s]" % (t[1], t[2], t[3])
-    return "%s.%s[%s]" % ("plan" if t[1] == "-1" else "block%s" % t[1], _GRP[int(t[2])], t[3])
-
-
-def _never_entered(c):
-    short = {_human(k): v for k, v in ((c.get("input", {}).get("spec") or {}).get("short_timeouts_ms") or {}).items()}
-    if not short:
-        return False
-    last_write, started = {}, {}
-    for e in (c.get("observed", {}).get("events") or []):
-        m = _EV.match(e)
-        if not m:
-            continue
-        t, kind, path, a4, n, ok = int(m.group(1)), m.group(2), m.group(3), m.group(4), m.group(5), m.group(6)
-        if path not in short:
-            continue
-        if kind == "Start":
-            started[path] = True
-        elif kind == "Write":
-            if (a4 == "Running" and n and int(n) >= 1 and ok == "false" and not started.get(path)
-                    and path in last_write and t - last_write[path] >= short[path] * 1000):
-                return True
-            last_write[path], started[path] = t, False
-    return False
-
-
-_orig_harness = ec._harness
-
-
-def _harness(ctx, profile, n, out_name, extra_args=(), seed=None):
-    cases = _orig_harness(ctx, profile, n, out_name, extra_args, seed)
-    for c in cases or []:
-        if not ec._is_hang(c) and _never_entered(c):
-            c["dist"]["late_start"] = True           # excluded by engine_common, counted in excluded_late_start
-            c["dist"]["never_entered_attempt"] = True
-    return cases
-
-
-ec._harness = _harness
+ec.evaluate = _evaluate
 
 
 def _codes(m, diag):
@@ -180,7 +138,7 @@ def run(ctx):
         monitors=mons,
         release_obligation=False,
         harness_args=["-poll"],
-        multi_quick=24, multi_thorough=400,   # thorough: 8200 traces = 512 per Coq shard (memory)
+        multi_quick=24, multi_thorough=400,
         proj="c08",
         rule_extra="Every trace carries EvRead snapshots of a poller (Workstream.Plan every ~200 us).",
         not_covered=NOT_COVERED,
